@@ -2,11 +2,11 @@
 """tools/markfixed.py <Cnn> <commit> <key-regex> : marks matching 'known' entries of known_findings.d/<Cnn>.json as fixed."""
 import json, re, sys
 pid, commit, rx = sys.argv[1:4]
-p = f"/verif/known_findings.d/{pid}.json"
+p = "/verif/known_findings.json"
 k = json.load(open(p))
 n = 0
 for e in k:
-    if e.get("status") == "known" and re.search(rx, e["key"]):
+    if e.get("property") == pid and e.get("status") == "known" and re.search(rx, e["key"]):
         e["status"] = "fixed"
         e["commit"] = commit
         if not e["what"].startswith("fixed:"):
